@@ -851,7 +851,8 @@ func processStructProvider(fset *token.FileSet, info *types.Info, call *ast.Call
 	}
 	if allFields(call) {
 		for i := 0; i < st.NumFields(); i++ {
-			if isPrevented(st.Tag(i)) {
+			if isPrevented(st.Tag(i)) || st.Field(i).Name() == "_" {
+				// Blank fields cannot be set in a composite literal.
 				continue
 			}
 			f := st.Field(i)
@@ -1095,7 +1096,7 @@ func checkField(f ast.Expr, st *types.Struct) (*types.Var, error) {
 	}
 	for i := 0; i < st.NumFields(); i++ {
 		// Field names are matched exactly: Go identifiers are case-sensitive.
-		if st.Field(i).Name() == name {
+		if st.Field(i).Name() == name && name != "_" {
 			if isPrevented(st.Tag(i)) {
 				return nil, fmt.Errorf("%s is prevented from injecting by wire", b.Value)
 			}
